@@ -459,6 +459,7 @@ def _format_segment(seg: Segment, part_values: PartValues) -> FormatedSeg:
 def _format_segment_tree(
     segtree    : SegmentTree,
     part_values: PartValues,
+    is_optional: bool = True,
 ) -> FormatedSeg:
     # NOTE (mb 2020-10-02): starting from the right, if there is any non-zero
     #   part, all further parts going left will be used. In other words, a part
@@ -477,7 +478,8 @@ def _format_segment_tree(
             is_zero = is_zero and formatted_seg.is_zero
             result_parts.append(formatted_seg.result)
 
-    result = "" if is_zero else "".join(result_parts)
+    # only optional groups are omitted when all their parts are zero, never the pattern as a whole
+    result = "" if (is_zero and is_optional) else "".join(result_parts)
     return FormatedSeg(False, is_zero, result)
 
 
@@ -569,7 +571,7 @@ def format_version(vinfo: version.V2VersionInfo, raw_pattern: str) -> str:
     """
     part_values   = _format_part_values(vinfo)
     segtree       = _parse_segtree(raw_pattern)
-    formatted_seg = _format_segment_tree(segtree, part_values)
+    formatted_seg = _format_segment_tree(segtree, part_values, is_optional=False)
     return formatted_seg.result
 
 
